@@ -111,6 +111,9 @@ def lark_expr(n):
         if str(name) == "sizeof" and len(ch) == 2:
             return ("sizeof", lark_expr(ch[1]))
         return ("call", str(name)) + tuple(lark_expr(c) for c in ch[1:] if c is not None)
+    if d == "call_without_args":
+        name = ch[0].children[0] if isinstance(ch[0], Tree) else ch[0]
+        return ("call", str(name))
     if d == "gcc_extended_expr":
         items = []
         for c in ch[:-1]:
